@@ -148,6 +148,7 @@ type c06Case struct {
 	Checks   int      `json:"checks"`          // number of value-flow checks the program performs when run
 	// VerdictOnly: the case belongs to the binding matrix: verdict and diagnostics are checked, an acceptance is not compiled
 	VerdictOnly bool              `json:"verdict_only,omitempty"`
+	Inputs      [][]int           `json:"inputs,omitempty"` // sentences to run (token numbers); default: chosen from the grammar's shape
 	Extra       map[string]string `json:"-"`
 }
 
@@ -168,7 +169,7 @@ func c06UserHead(pkg string, imports []string) string {
 	for _, i := range is {
 		fmt.Fprintf(&b, "\t%q\n", i)
 	}
-	b.WriteString(")\n\nvar _ = fmt.Sprint\n\ntype Token struct {\n\tType int\n\tIdx  int\n}\n\ntype runState struct {\n\tfails  []string\n\tchecks int\n}\n\ntype parser struct {\n\tlox\n\tst *runState\n}\n")
+	b.WriteString(")\n\nvar _ = fmt.Sprint\n\ntype Token struct {\n\tType int\n\tIdx  int\n}\n\ntype runState struct {\n\tfails  []string\n\tchecks int\n\tn      int\n}\n\ntype parser struct {\n\tlox\n\tst *runState\n}\n")
 	b.WriteString(c06Decls)
 	b.WriteString(`
 func (p *parser) expect(what string, got, want any) {
@@ -193,7 +194,7 @@ func (l *sliceLexer) ReadToken() (Token, int) {
 }
 
 func Run(toks []int) (ok bool, checks int, fails []string, panicked string) {
-	p := &parser{st: &runState{}}
+	p := &parser{st: &runState{n: len(toks)}}
 	defer func() {
 		if x := recover(); x != nil {
 			panicked = fmt.Sprint(x)
@@ -370,6 +371,101 @@ func c06Cases(quick bool) []*c06Case {
 	add("layout/no-result", "@start s = a B\na = A\n", base+"func (p *parser) on_s(x S, _ Token) {}\n", nil, false, 0, "go:on_s(")
 	add("layout/two-results", "@start s = a B\na = A\n", base+"func (p *parser) on_s(x S, _ Token) (int, error) { return 1, nil }\n", nil, false, 0, "go:on_s(")
 	add("layout/pointer-vs-value-receiver", "@start s = a B\na = A\n", base+strings.Replace(okS, "(p *parser) on_s", "(p parser) on_s", 1), nil, true, 1)
+	out = append(out, c06SugarPairs()...)
+	return out
+}
+
+// c06SugarPairs: two sugared terms over ONE element (the rule a, or the token
+// A), every ordered pair of {x?, x*, x+, @list(x,COMMA), @list(x,COMMA)?},
+// written in two rules (declared in either order) or in one production. The
+// rules lox generates for the sugar are shared or derived from one another
+// (x* from x+, @list(..)? from @list(..)), so which one is met first matters to
+// the generator; to the user it must not: every such package binds, compiles,
+// and every element reaches its parameter (the elements carry the position of
+// their token, so each action checks that it got exactly the elements between
+// its keyword and the next one).
+func c06SugarPairs() []*c06Case {
+	type sugar struct {
+		name, term string // term with X for the element
+		list, sep  bool
+		min        int
+	}
+	sugars := []sugar{
+		{"opt", "X?", false, false, 0},
+		{"star", "X*", true, false, 0},
+		{"plus", "X+", true, false, 1},
+		{"list", "@list(X, COMMA)", true, true, 1},
+		{"listopt", "@list(X, COMMA)?", true, true, 0},
+	}
+	var out []*c06Case
+	for _, el := range []struct{ name, sym, typ, field, decl string }{
+		{"rule", "a", "S", "V", "a = A\n"},
+		{"token", "A", "Token", "Idx", ""},
+	} {
+		// Go statements that check parameter `x` of the given sugar against the
+		// keyword token `k` and leave the position after the last element in `next`
+		body := func(sg sugar, x, k string) string {
+			if !sg.list {
+				return fmt.Sprintf("\tnext := %s.Idx + 1\n\tvar zero %s\n\tif %s != zero {\n\t\tp.expect(\"element of %s\", any(%s.%s), any(next))\n\t\tnext++\n\t} else {\n\t\tp.st.checks++\n\t}\n", k, el.typ, x, sg.name, x, el.field)
+			}
+			step := 1
+			if sg.sep {
+				step = 2
+			}
+			return fmt.Sprintf("\tnext := %s.Idx + 1\n\tp.st.checks++\n\tfor i, e := range %s {\n\t\tp.expect(\"element of %s\", any(e.%s), any(%s.Idx+1+%d*i))\n\t\tnext = e.%s + 1\n\t}\n", k, x, sg.name, el.field, k, step, el.field)
+		}
+		typeOf := func(sg sugar) string {
+			if sg.list {
+				return "[]" + el.typ
+			}
+			return el.typ
+		}
+		stretch := func(sg sugar, n int) []int { // n elements
+			var o []int
+			for i := 0; i < n; i++ {
+				if sg.sep && i > 0 {
+					o = append(o, 5)
+				}
+				o = append(o, 2)
+			}
+			return o
+		}
+		for _, s1 := range sugars {
+			for _, s2 := range sugars {
+				var inputs [][]int
+				for n1 := s1.min; n1 <= 2; n1++ {
+					for n2 := s2.min; n2 <= 2; n2++ {
+						if (!s1.list && n1 > 1) || (!s2.list && n2 > 1) {
+							continue
+						}
+						in := append([]int{3}, stretch(s1, n1)...)
+						in = append(append(in, 4), stretch(s2, n2)...)
+						inputs = append(inputs, in)
+					}
+				}
+				t1, t2 := strings.ReplaceAll(s1.term, "X", el.sym), strings.ReplaceAll(s2.term, "X", el.sym)
+				onA := ""
+				if el.name == "rule" {
+					onA = "func (p *parser) on_a(t Token) S { return S{V: t.Idx} }\n\n"
+				}
+				span := "type span struct{ First, Next int }\n\n"
+				onU := fmt.Sprintf("func (p *parser) on_u(k Token, x %s) span {\n%s\treturn span{k.Idx, next}\n}\n\n", typeOf(s1), body(s1, "x", "k"))
+				onV := fmt.Sprintf("func (p *parser) on_v(k Token, x %s) span {\n%s\treturn span{k.Idx, next}\n}\n\n", typeOf(s2), body(s2, "x", "k"))
+				onS := "func (p *parser) on_s(u span, v span) int {\n\tp.expect(\"where the elements delivered for the first term end\", any(u.Next), any(v.First))\n\tp.expect(\"where the elements delivered for the second term end\", any(v.Next), any(100+p.st.n))\n\treturn 1\n}\n"
+				for _, lay := range []struct{ name, parser string }{
+					{"two-rules", "@start s = u v\nu = B " + t1 + "\nv = C " + t2 + "\n" + el.decl},
+					{"two-rules-second-declared-first", "@start s = u v\nv = C " + t2 + "\nu = B " + t1 + "\n" + el.decl},
+				} {
+					out = append(out, &c06Case{Name: fmt.Sprintf("sugar-pair/%s/%s/%s+%s", el.name, lay.name, s1.name, s2.name), Lox: c06LoxHead + lay.parser,
+						User: c06UserHead("PKG", nil) + "\n" + span + onA + onU + onV + onS, ExpectOK: true, Checks: 2, Inputs: inputs})
+				}
+				one := fmt.Sprintf("func (p *parser) on_s(k Token, x %s, k2 Token, y %s) int {\n\tfirst := func() int {\n%s\t\treturn next\n\t}()\n\tp.expect(\"where the elements delivered for the first term end\", any(first), any(k2.Idx))\n\tsecond := func() int {\n%s\t\treturn next\n\t}()\n\tp.expect(\"where the elements delivered for the second term end\", any(second), any(100+p.st.n))\n\treturn 1\n}\n",
+					typeOf(s1), typeOf(s2), strings.ReplaceAll(body(s1, "x", "k"), "\n\t", "\n\t\t"), strings.ReplaceAll(body(s2, "y", "k2"), "\n\t", "\n\t\t"))
+				out = append(out, &c06Case{Name: fmt.Sprintf("sugar-pair/%s/one-production/%s+%s", el.name, s1.name, s2.name), Lox: c06LoxHead + "@start s = B " + t1 + " C " + t2 + "\n" + el.decl,
+					User: c06UserHead("PKG", nil) + "\n" + onA + one, ExpectOK: true, Checks: 2, Inputs: inputs})
+			}
+		}
+	}
 	return out
 }
 
@@ -501,6 +597,9 @@ func c06Batch(tag string, cases []*c06Case, st *mc.Stats, mu *sync.Mutex) []mc.V
 	}
 	// inputs: token constants A=2 B=3 C=4 COMMA=5
 	inputsFor := func(cs *c06Case) [][]int {
+		if len(cs.Inputs) > 0 {
+			return cs.Inputs
+		}
 		switch {
 		case strings.Contains(cs.Lox, "a? B"):
 			return [][]int{{2, 3}, {3}}
